@@ -238,6 +238,9 @@ func main() {
 		if s.Tier == "thorough" && *tier != "thorough" {
 			continue
 		}
+		if s.Tier == "debug" && *only == "" {
+			continue
+		}
 		if s.Tier == "quick" && *tier != "quick" {
 			continue
 		}
